@@ -22,6 +22,9 @@ func coll(id string) *ev.Collector {
 var bin = os.Getenv("VERIF_BIN")
 
 func TestMain(m *testing.M) {
+	if os.Getenv("VERIF_OPSHELL_HELPER") != "" {
+		os.Exit(opshellHelper()) // re-executed on a pty by TestC02PtyLib
+	}
 	if bin == "" {
 		println("VERIF_BIN not set")
 		os.Exit(2)
